@@ -10,6 +10,7 @@ use crate::ev;
 use crate::fault::FaultReader;
 use gimli::{EndianSlice, Error, Reader, Result, RunTimeEndian};
 
+pub mod cfi;
 pub mod info;
 pub mod line;
 pub mod lists;
@@ -159,6 +160,7 @@ pub fn drive_family<'a, R: Reader<Offset = usize> + 'a>(
         "macros" => line::macros(mk, case, ctx),
         "lists" => lists::lists(mk, case, ctx),
         "info" => info::info(mk, case, ctx),
+        "cfi" => cfi::cfi(mk, case, ctx),
         other => panic!("unknown family {}", other),
     }
 }
